@@ -1,0 +1,102 @@
+//go:build verif
+
+// Contracts for the compiler's code buffer (compile.go: codeStore) and its peephole helpers (C01, C07, C17).
+// Comment-only; read by /verif/engine. See contracts_verif.go.
+
+package lua
+
+// codeStore: code words and their source lines are kept pairwise; pc is the number of instructions emitted
+//@ define Inv_cs(cd *codeStore) bool = cd != nil && offset(cd.codes) == 0 && offset(cd.lines) == 0 && len(cd.codes) == len(cd.lines) && 0 <= cd.pc && cd.pc <= len(cd.codes)
+//@ define csKept(cd *codeStore, n int) bool = forall k int :: 0 <= k && k < n ==> cd.codes[k] == old(cd.codes[k]) && cd.lines[k] == old(cd.lines[k])
+
+// Add(inst, line): the instruction and ITS line are stored at the same index pc; everything before is untouched
+//@ func (*codeStore).Add [C01 C07 C17]
+//@ requires Inv_cs(cd)
+//@ noraise
+//@ ensures  Inv_cs(cd) && cd.pc == old(cd.pc) + 1 && cd.codes[old(cd.pc)] == inst && cd.lines[old(cd.pc)] == line && csKept(cd, old(cd.pc))
+//@ modifies cd.codes, cd.lines, cd.pc, cd.codes[*], cd.lines[*]
+
+//@ func (*codeStore).AddABC [C01 C07 C17]
+//@ requires Inv_cs(cd) && 0 <= op && op <= 63 && 0 <= a && a <= 255 && 0 <= b && b <= 511 && 0 <= c && c <= 511
+//@ noraise
+//@ ensures  Inv_cs(cd) && cd.pc == old(cd.pc) + 1 && cd.lines[old(cd.pc)] == line && csKept(cd, old(cd.pc))
+//@ ensures  opGetOpCode(cd.codes[old(cd.pc)]) == op && opGetArgA(cd.codes[old(cd.pc)]) == a && opGetArgB(cd.codes[old(cd.pc)]) == b && opGetArgC(cd.codes[old(cd.pc)]) == c
+//@ modifies cd.codes, cd.lines, cd.pc, cd.codes[*], cd.lines[*]
+
+//@ func (*codeStore).AddABx [C01 C07 C17]
+//@ requires Inv_cs(cd) && 0 <= op && op <= 63 && 0 <= a && a <= 255 && 0 <= bx && bx <= 262143
+//@ noraise
+//@ ensures  Inv_cs(cd) && cd.pc == old(cd.pc) + 1 && cd.lines[old(cd.pc)] == line && csKept(cd, old(cd.pc))
+//@ ensures  opGetOpCode(cd.codes[old(cd.pc)]) == op && opGetArgA(cd.codes[old(cd.pc)]) == a && opGetArgBx(cd.codes[old(cd.pc)]) == bx
+//@ modifies cd.codes, cd.lines, cd.pc, cd.codes[*], cd.lines[*]
+
+//@ func (*codeStore).AddASbx [C01 C07 C17]
+//@ requires Inv_cs(cd) && 0 <= op && op <= 63 && 0 <= a && a <= 255 && -131071 <= sbx && sbx <= 131072
+//@ noraise
+//@ ensures  Inv_cs(cd) && cd.pc == old(cd.pc) + 1 && cd.lines[old(cd.pc)] == line && csKept(cd, old(cd.pc))
+//@ ensures  opGetOpCode(cd.codes[old(cd.pc)]) == op && opGetArgA(cd.codes[old(cd.pc)]) == a && opGetArgSbx(cd.codes[old(cd.pc)]) == sbx
+//@ modifies cd.codes, cd.lines, cd.pc, cd.codes[*], cd.lines[*]
+
+//@ func (*codeStore).AddLoadNil [C01 C07 C17]
+//@ requires Inv_cs(cd) && 0 <= a && a <= 255 && 0 <= b && b <= 511
+//@ noraise
+//@ ensures  Inv_cs(cd) && cd.pc == old(cd.pc) + 1 && cd.lines[old(cd.pc)] == line && csKept(cd, old(cd.pc))
+//@ ensures  opGetOpCode(cd.codes[old(cd.pc)]) == OP_LOADNIL && opGetArgA(cd.codes[old(cd.pc)]) == a && opGetArgB(cd.codes[old(cd.pc)]) == b
+//@ modifies cd.codes, cd.lines, cd.pc, cd.codes[*], cd.lines[*]
+
+//@ func (*codeStore).Last [C01 C07]
+//@ requires Inv_cs(cd)
+//@ noraise
+//@ ensures  result == ite(cd.pc == 0, 4294967295, cd.codes[cd.pc-1])
+//@ modifies nothing
+
+//@ func (*codeStore).Pop [C01 C07]
+//@ requires Inv_cs(cd) && cd.pc >= 1
+//@ noraise
+//@ ensures  Inv_cs(cd) && cd.pc == old(cd.pc) - 1
+//@ modifies cd.pc
+
+//@ func (*codeStore).At [C01 C07]
+//@ requires Inv_cs(cd) && 0 <= pc && pc < len(cd.codes)
+//@ noraise
+//@ ensures  result == cd.codes[pc]
+//@ modifies nothing
+
+//@ func (*codeStore).LastPC [C01 C07]
+//@ requires cd != nil
+//@ noraise
+//@ ensures  result == cd.pc - 1
+//@ modifies nothing
+
+// List / PosList: exactly the first pc words and the first pc lines - the same count (the line table is as long as the code)
+//@ func (*codeStore).List [C01 C07 C17]
+//@ requires Inv_cs(cd)
+//@ noraise
+//@ ensures  len(result) == cd.pc && arrid(result) == arrid(cd.codes) && offset(result) == 0
+//@ modifies nothing
+
+//@ func (*codeStore).PosList [C01 C07 C17]
+//@ requires Inv_cs(cd)
+//@ noraise
+//@ ensures  len(result) == cd.pc && arrid(result) == arrid(cd.lines) && offset(result) == 0
+//@ modifies nothing
+
+// PropagateMV(top, save, reg, inc): if the last instruction is a MOVE into a temporary (A >= top) it is dropped and its
+// source register becomes the operand; otherwise the operand is the next free register, which is then reserved
+//@ func (*codeStore).PropagateMV [C01]
+//@ requires Inv_cs(cd) && save != nil && reg != nil
+//@ noraise
+//@ ensures  "move-forwarded": old(cd.pc >= 1 && opGetArgA(cd.codes[cd.pc-1]) >= top && opGetOpCode(cd.codes[cd.pc-1]) == OP_MOVE) ==> cd.pc == old(cd.pc) - 1 && deref(save) == old(opGetArgB(cd.codes[cd.pc-1])) && (save != reg ==> deref(reg) == old(deref(reg)))
+//@ ensures  "register-taken": !old(cd.pc >= 1 && opGetArgA(cd.codes[cd.pc-1]) >= top && opGetOpCode(cd.codes[cd.pc-1]) == OP_MOVE) ==> cd.pc == old(cd.pc) && deref(save) == ite(save == reg, old(deref(reg)) + inc, old(deref(reg))) && deref(reg) == old(deref(reg)) + inc
+//@ ensures  Inv_cs(cd)
+//@ modifies cd.pc, *save, *reg
+
+// PropagateKMV: as PropagateMV, and a LOADK of a constant whose index fits the RK field is dropped in favour of the RK operand
+//@ func (*codeStore).PropagateKMV [C01]
+//@ requires Inv_cs(cd) && save != nil && reg != nil
+//@ noraise
+//@ ensures  "loadk-forwarded": old(cd.pc >= 1 && opGetArgA(cd.codes[cd.pc-1]) >= top && opGetOpCode(cd.codes[cd.pc-1]) == OP_LOADK && opGetArgBx(cd.codes[cd.pc-1]) <= opMaxIndexRk) ==> cd.pc == old(cd.pc) - 1 && deref(save) == old(opGetArgBx(cd.codes[cd.pc-1])) + 256 && opIsK(deref(save)) && opIndexK(deref(save)) == old(opGetArgBx(cd.codes[cd.pc-1])) && (save != reg ==> deref(reg) == old(deref(reg)))
+//@ ensures  "move-forwarded": old(cd.pc >= 1 && opGetArgA(cd.codes[cd.pc-1]) >= top && opGetOpCode(cd.codes[cd.pc-1]) == OP_MOVE) ==> cd.pc == old(cd.pc) - 1 && deref(save) == old(opGetArgB(cd.codes[cd.pc-1])) && (save != reg ==> deref(reg) == old(deref(reg)))
+//@ ensures  "register-taken": !old(cd.pc >= 1 && opGetArgA(cd.codes[cd.pc-1]) >= top && (opGetOpCode(cd.codes[cd.pc-1]) == OP_MOVE || (opGetOpCode(cd.codes[cd.pc-1]) == OP_LOADK && opGetArgBx(cd.codes[cd.pc-1]) <= opMaxIndexRk))) ==> cd.pc == old(cd.pc) && deref(save) == ite(save == reg, old(deref(reg)) + inc, old(deref(reg))) && deref(reg) == old(deref(reg)) + inc
+//@ ensures  Inv_cs(cd)
+//@ modifies cd.pc, *save, *reg
